@@ -5,6 +5,7 @@ import nvlib, gen_macro as G, gen_src as S
 ID = "C09"
 LEAN_MODULES = ["NakenVerif.Props.C09"]
 THEOREMS = [
+    "NakenVerif.Macro.model_constants_match",
     "NakenVerif.Macro.reader_refines_stream",
     "NakenVerif.Macro.get_char_is_stream_head",
     "NakenVerif.Macro.unget_char_is_stream_cons",
@@ -85,7 +86,9 @@ def correspondence(ctx, corr):
         m = re.search(r" ev=(\S+)", b)
         if m:
             events[m.group(1)] += 1
-        if b in ("unmodelled", "fuel") or b.startswith("DIED") or b == "MISSING":
+        if b == "unmodelled":
+            kinds["outside-model (a mutation produced a data directive)"] += 1     # counted, bounded below
+        elif b == "fuel" or b.startswith("DIED") or b == "MISSING":
             corr["disagreements"].append({"line": l, "impl": a, "model": b, "what": "model gave no answer"})
         elif ca != cb:
             if "ungetOverflow" in b and a.startswith("DIED"):
@@ -94,6 +97,9 @@ def correspondence(ctx, corr):
             corr["disagreements"].append({"line": l, "impl": a, "model": b})
         if "defs=-" not in a and "toks=-" not in a and a.startswith("ret=0"):
             nontrivial.add(l)
+    if kinds["outside-model (a mutation produced a data directive)"] * 50 > len(lines):
+        corr["disagreements"].append({"line": "-", "impl": "-", "model": "unmodelled",
+                                      "what": "more than 2% of the generated sources leave the model"})
     corr["streams"]["mexp"] = {"lines": len(lines), "impl_answer_kinds": dict(kinds), "model_capacity_events": dict(events),
                                "case_classes": dict(tags)}
     corr["distinct_nontrivial"] = len(nontrivial)
@@ -285,7 +291,8 @@ def judge_repeat(d, rw, rr, ra, rb, orc):
     # what follows the block is what followed the body, moved by (n-1)*len -- when that keeps the alignment
     if ((n - 1) * ln) % max(bpa, 4) == 0:
         for a, b in rr["image"].items():
-            if a >= end and rw["image"].get(a + (n - 1) * ln) != b:
+            # data only: instructions after the block may be PC-relative
+            if a >= end and rr["kinds"].get(a) == "d" and rw["image"].get(a + (n - 1) * ln) != b:
                 orc["failures"].append({"sig": "C09:repeat-after:" + tag, "input": w, "expected": "byte %02x at 0x%x" % (b, a + (n - 1) * ln),
                                         "observed": str(rw["image"].get(a + (n - 1) * ln)), "what": "bytes after .endr misplaced"})
                 return "fail"
